@@ -45,19 +45,30 @@ def run(ctx):
         sy = Sym(dc)
         wr = [c for c in nonforeign_calls(dc) if c.fn is dc and c.is_("Write::write", "io::Write::write") and is_param(sym_through(arg_syms(c)[0]), 0)]
         takes = [c for c in nonforeign_calls(dc) if c.fn is dc and c.is_("Option<T>::take") and is_param(sym_through(arg_syms(c)[0]), 1)]
-        pops = [c for c in nonforeign_calls(dc) if c.fn is dc and c.is_("VecDeque<T, A>::pop_front") and is_param(sym_through(arg_syms(c)[0]), 2)]
+        pops = [c for c in nonforeign_calls(dc) if c.is_("VecDeque<T, A>::pop_front") and (is_param(sym_through(arg_syms(c)[0]), 2) if c.fn is dc else "('arg', 2" in repr(arg_syms(c)[0]))]
         if len(wr) != 1 or len(takes) != 1 or len(pops) != 1:
             chk.unrecognised("C11.a", f"{dc.path} [shape]", f"expected one conn.write, one wbuf.take(), one msgs.pop_front(); found {len(wr)}/{len(takes)}/{len(pops)}", dc.loc())
         else:
             W = wr[0]
             # what is written: the taken buffer
             buf = strip_sym(sym_through(arg_syms(W)[1], "Deref::deref", "AsRef::as_ref", "Bytes::as_ref"))
-            alts = flat(buf)
-            from_take = any("take" in sym_str(a) for a in alts)
+            from props.common import opt_alts
+
+            alts = [a for a, _ in opt_alts(t, buf)]
+            from_take = any("take" in sym_str(a) and "pop_front" not in sym_str(a) for a in alts)
             from_pop = any("pop_front" in sym_str(a) for a in alts)
             ok = from_take and from_pop and len(alts) == 2
             chk.ob("C11.a", f"{dc.path} [what is written]", ok, "the buffer written is the parked remainder (wbuf.take()) or else the next message (msgs.pop_front())" if ok else f"conn.write is given {sym_str(buf)[:100]}", W.loc())
-            ok = any(lab == "None" and sym_is_call(dd, "Option<T>::take") for dd, lab in gates(b, pops[0].bb))
+            if pops[0].fn is dc:
+                ok = any(lab == "None" and sym_is_call(dd, "Option<T>::take") for dd, lab in gates(b, pops[0].bb))
+            else:
+                # wbuf.take().or_else(|| msgs.pop_front()): the closure runs only when take() returned None
+                ok = False
+                for c in nonforeign_calls(dc):
+                    if c.fn is dc and c.is_("Option<T>::or_else"):
+                        a_ = arg_syms(c)
+                        cl = strip_sym(a_[1])
+                        ok = ok or (sym_is_call(a_[0], "Option<T>::take") and cl[0] == "agg" and cl[1] == "closure" and cl[5] == pops[0].fn.path)
             chk.ob("C11.a", f"{dc.path} [remainder first]", ok, "msgs.pop_front() is only consulted when wbuf.take() returned None" if ok else "a new message can be taken while a parked remainder exists: frames would interleave", pops[0].loc())
             # restore sites
             restores = [c for c in nonforeign_calls(dc) if c.fn is dc and c.is_("Option<T>::replace", "Option<T>::insert", "Option<T>::get_or_insert") and is_param(sym_through(arg_syms(c)[0]), 1)]
